@@ -14,10 +14,11 @@ _WORLD_MODULES = {
     "gpio": "worlds.gpio",
     "builder": "worlds.builder",
     "elab": "worlds.elab",
+    "ports": "worlds.ports",
 }
 PROPERTY_WORLD = {
     "C04": "mux", "C05": "mux",
-    "C07": "wbdec", "C10": "wb2csr", "C15": "sram", "C13": "evmon", "C14": "csrevmon", "C11": "fields", "C12": "fields", "C16": "gpio", "C17": "builder", "C19": "elab",
+    "C07": "wbdec", "C10": "wb2csr", "C15": "sram", "C13": "evmon", "C14": "csrevmon", "C11": "fields", "C12": "fields", "C16": "gpio", "C17": "builder", "C19": "elab", "C20": "ports",
     "C08": "arbiter", "C09": "arbiter",
     "C02": "memmap", "C03": "memmap", "C18": "memmap",
 }
